@@ -1,7 +1,463 @@
 /-
-Helper lemmas (NpyDecode).
+Helper lemmas (NpyDecode): framing of `readNpy`, the value loop, exact values of the binary64 patterns produced by the
+integer / binary32 conversions.
 -/
 import SfsModel.Lemmas.Bytes
+import Mathlib.Algebra.Order.Field.Basic
+import Mathlib.Algebra.Order.Field.Rat
+import Mathlib.Tactic.Ring
+import Mathlib.Tactic.Linarith
+import Mathlib.Tactic.FieldSimp
+import Mathlib.Tactic.NormNum
 namespace Sfs
+
+
+/-! ## framing -/
+
+theorem decodeValue_big (t : NpyTy) (bytes : List Nat) :
+    decodeValue .big t bytes = decodeValue .little t bytes.reverse := by
+  cases t <;> rfl
+
+theorem npyTy_width_pos (t : NpyTy) : 0 < t.width := by cases t <;> decide
+
+theorem readValues_fuel (en : Endian) (t : NpyTy) : ∀ (n : Nat) (body : List Nat) (fuel : Nat),
+    body.length = n → body.length < fuel →
+    readValues en t fuel body =
+      if body.length % t.width = 0 then
+        .ok ((List.range (body.length / t.width)).map (fun i => decodeValue en t ((body.drop (i * t.width)).take t.width)))
+      else .error .eof := by
+  intro n
+  induction n using Nat.strongRecOn with
+  | _ n ih =>
+    intro body fuel hn hf
+    have hw := npyTy_width_pos t
+    cases fuel with
+    | zero => omega
+    | succ fuel =>
+      unfold readValues
+      by_cases he : body = []
+      · subst he; simp
+      · have hlen : 0 < body.length := List.length_pos_iff.mpr he
+        have he' : body.isEmpty = false := by cases body <;> simp_all
+        simp only [he', Bool.false_eq_true, if_false]
+        by_cases hlt : body.length < t.width
+        · have : body.length % t.width ≠ 0 := by rw [Nat.mod_eq_of_lt hlt]; omega
+          simp [hlt, this]
+        · simp only [hlt, if_false]
+          have hdl : (body.drop t.width).length = body.length - t.width := List.length_drop
+          rw [ih (body.length - t.width) (by omega) (body.drop t.width) fuel hdl (by omega)]
+          have hmod : body.length % t.width = (body.length - t.width) % t.width := by
+            rw [Nat.mod_eq_sub_mod (by omega)]
+          have hdiv : body.length / t.width = (body.length - t.width) / t.width + 1 := by
+            rw [Nat.div_eq_sub_div hw (by omega)]
+          rw [hdl, ← hmod]
+          by_cases hm : body.length % t.width = 0
+          · simp only [hm, if_true]
+            rw [hdiv, List.range_succ_eq_map]
+            simp only [List.map_cons, List.map_map, Nat.zero_mul, List.drop_zero]
+            congr 2
+            apply List.map_congr_left
+            intro i _
+            simp only [Function.comp, List.drop_drop, Nat.succ_mul]
+            congr 3; omega
+          · simp [hm]
+
+/-- the tail of `readNpy` after the framing. -/
+def npyAfterHeader (dictBytes body : List Nat) : Except IoErr (List Nat × List Nat) :=
+  if !allAscii dictBytes then .error .invalid
+  else match parseNpyDict (bytesToChars dictBytes) with
+    | none => .error .invalid
+    | some d =>
+      if d.fortran then .error .invalid
+      else match readValues d.endian d.ty (body.length + 1) body with
+        | .error e => .error e
+        | .ok vals =>
+          if checkedSize d.shape = some vals.length then .ok (d.shape, vals) else .error .invalid
+
+def npyLenWidth (major : Nat) : Option Nat := match major with
+  | 1 => some 2 | 2 => some 4 | 3 => some 4 | _ => none
+
+theorem readNpy_magic (major minor : Nat) (tail : List Nat) :
+    readNpy (npyMagic ++ [major, minor] ++ tail) =
+      match npyLenWidth major with
+      | none => .error .invalid
+      | some w =>
+        if tail.length < w then .error .eof
+        else
+          let headerLen := ofLeBytes (tail.take w)
+          let r := tail.drop w
+          if r.length < headerLen then .error .eof
+          else npyAfterHeader (r.take headerLen) (r.drop headerLen) := by
+  unfold readNpy
+  have h1 : ¬ (npyMagic ++ [major, minor] ++ tail).length < 6 := by simp [npyMagic]
+  have h2 : (npyMagic ++ [major, minor] ++ tail).take 6 = npyMagic := by simp [npyMagic]
+  have h3 : (npyMagic ++ [major, minor] ++ tail).drop 6 = major :: minor :: tail := by simp [npyMagic]
+  simp only [h1, h2, h3, if_false, ne_eq, not_true_eq_false]
+  have h4 : ¬ (major :: minor :: tail).length < 2 := by simp
+  simp only [h4, if_false, List.getD_cons_zero, List.drop_succ_cons, List.drop_zero]
+  rfl
+
+theorem readNpy_framed (major minor w : Nat) (dictBytes body : List Nat) (hw : npyLenWidth major = some w)
+    (hL : dictBytes.length < 256 ^ w) :
+    readNpy (npyMagic ++ [major, minor] ++ leBytes w dictBytes.length ++ dictBytes ++ body) =
+      npyAfterHeader dictBytes body := by
+  have := readNpy_magic major minor (leBytes w dictBytes.length ++ dictBytes ++ body)
+  simp only [← List.append_assoc] at this
+  rw [this, hw]
+  simp only [List.append_assoc]
+  have h1 : ¬ (leBytes w dictBytes.length ++ (dictBytes ++ body)).length < w := by simp
+  have h2 : (leBytes w dictBytes.length ++ (dictBytes ++ body)).take w = leBytes w dictBytes.length := by
+    exact List.take_left' (by simp)
+  have h3 : (leBytes w dictBytes.length ++ (dictBytes ++ body)).drop w = dictBytes ++ body := by
+    exact List.drop_left' (by simp)
+  simp only [h1, h2, h3, if_false, ofLeBytes_leBytes_of_lt w _ hL]
+  have h4 : ¬ (dictBytes ++ body).length < dictBytes.length := by simp
+  simp only [h4, if_false, List.take_left, List.drop_left]
+
+theorem readNpy_bad_version (major minor : Nat) (tail : List Nat) (h : npyLenWidth major = none) :
+    readNpy (npyMagic ++ [major, minor] ++ tail) = .error .invalid := by
+  rw [readNpy_magic, h]
+
+theorem npyLenWidth_none (major : Nat) (h : major ≠ 1 ∧ major ≠ 2 ∧ major ≠ 3) : npyLenWidth major = none := by
+  unfold npyLenWidth
+  split <;> simp_all
+/-! ## binary64 values -/
+
+/-- `f64OfBits` on the three fields. -/
+def f64Val (sign : Bool) (e m : Nat) : XR :=
+  if e == 2047 then (if m == 0 then .inf sign else .nan)
+  else
+    let num : Nat := if e == 0 then m else if e ≥ 1075 then (2 ^ 52 + m) * 2 ^ (e - 1075) else 2 ^ 52 + m
+    let den : Nat := if e == 0 then 2 ^ 1074 else if e ≥ 1075 then 1 else 2 ^ (1075 - e)
+    let mag : Rat := (num : Rat) / (den : Rat)
+    .fin (if sign then -mag else mag)
+
+set_option exponentiation.threshold 1100 in
+theorem f64OfBits_eq (b : Nat) :
+    f64OfBits b = f64Val (b / 2 ^ 63 % 2 == 1) (b / 2 ^ 52 % 2 ^ 11) (b % 2 ^ 52) := rfl
+
+theorem f64OfBits_mk (s E m : Nat) (hs : s < 2) (hE : E < 2 ^ 11) (hm : m < 2 ^ 52) :
+    f64OfBits (s * 2 ^ 63 + E * 2 ^ 52 + m) = f64Val (s == 1) E m := by
+  rw [f64OfBits_eq]
+  have h1 : (s * 2 ^ 63 + E * 2 ^ 52 + m) / 2 ^ 63 % 2 = s := by omega
+  have h2 : (s * 2 ^ 63 + E * 2 ^ 52 + m) / 2 ^ 52 % 2 ^ 11 = E := by omega
+  have h3 : (s * 2 ^ 63 + E * 2 ^ 52 + m) % 2 ^ 52 = m := by omega
+  rw [h1, h2, h3]
+
+/-- a normal pattern whose value is the integer `N`. -/
+theorem f64Val_int (sign : Bool) (E m N : Nat) (hE0 : 0 < E) (hE : E < 2047)
+    (h1 : E < 1075 → 2 ^ 52 + m = N * 2 ^ (1075 - E)) (h2 : 1075 ≤ E → N = (2 ^ 52 + m) * 2 ^ (E - 1075)) :
+    f64Val sign E m = .fin (if sign then -(N : Rat) else N) := by
+  have e1 : (E == 2047) = false := by simp; omega
+  have e2 : (E == 0) = false := by simp; omega
+  unfold f64Val
+  simp only [e1, e2, Bool.false_eq_true, if_false]
+  by_cases h : 1075 ≤ E
+  · simp only [ge_iff_le, h, if_true, ← h2 h, Nat.cast_one, div_one]
+  · simp only [ge_iff_le, h, if_false, h1 (by omega)]
+    have : ((2 ^ (1075 - E) : Nat) : Rat) ≠ 0 := by positivity
+    rw [Nat.cast_mul, mul_div_assoc, div_self this, mul_one]
+
+theorem log2_bounds (n : Nat) (hn : n ≠ 0) : 2 ^ Nat.log2 n ≤ n ∧ n < 2 ^ (Nat.log2 n + 1) :=
+  ⟨Nat.log2_self_le hn, Nat.lt_log2_self⟩
+
+/-- normalising a number with `e = log2 n ≤ k` to `k+1` bits. -/
+theorem normalise_bounds (n k : Nat) (hn : n ≠ 0) (he : Nat.log2 n ≤ k) :
+    2 ^ k ≤ n * 2 ^ (k - Nat.log2 n) ∧ n * 2 ^ (k - Nat.log2 n) < 2 ^ (k + 1) := by
+  obtain ⟨h1, h2⟩ := log2_bounds n hn
+  have hp : 0 < 2 ^ (k - Nat.log2 n) := Nat.pow_pos (by decide)
+  constructor
+  · calc 2 ^ k = 2 ^ Nat.log2 n * 2 ^ (k - Nat.log2 n) := by rw [← Nat.pow_add]; congr 1; omega
+      _ ≤ n * 2 ^ (k - Nat.log2 n) := Nat.mul_le_mul_right _ h1
+  · calc n * 2 ^ (k - Nat.log2 n) < 2 ^ (Nat.log2 n + 1) * 2 ^ (k - Nat.log2 n) := Nat.mul_lt_mul_of_pos_right h2 hp
+      _ = 2 ^ (k + 1) := by rw [← Nat.pow_add]; congr 1; omega
+
+theorem shiftRoundEven_spec (n s : Nat) (hs : 0 < s) :
+    (shiftRoundEven n s = n / 2 ^ s ∨ shiftRoundEven n s = n / 2 ^ s + 1) ∧
+    2 * (if shiftRoundEven n s * 2 ^ s ≤ n then n - shiftRoundEven n s * 2 ^ s else shiftRoundEven n s * 2 ^ s - n) ≤ 2 ^ s := by
+  have hdm := Nat.div_add_mod n (2 ^ s)
+  have hlt : n % 2 ^ s < 2 ^ s := Nat.mod_lt _ (Nat.pow_pos (by decide))
+  have hp : 2 ^ s = 2 * 2 ^ (s - 1) := by rw [← Nat.pow_succ']; congr 1; omega
+  have hq1 : (n / 2 ^ s + 1) * 2 ^ s = 2 ^ s * (n / 2 ^ s) + 2 ^ s := by rw [Nat.add_mul, Nat.one_mul, Nat.mul_comm]
+  have hq0 : (n / 2 ^ s) * 2 ^ s = 2 ^ s * (n / 2 ^ s) := Nat.mul_comm _ _
+  unfold shiftRoundEven
+  simp only [show s ≠ 0 by omega, if_false]
+  generalize 2 ^ (s - 1) = P at *
+  generalize n % 2 ^ s = r at *
+  split
+  · refine ⟨.inr rfl, ?_⟩
+    rw [hq1]; split <;> omega
+  · split
+    · refine ⟨.inl rfl, ?_⟩
+      rw [hq0]; split <;> omega
+    · split
+      · refine ⟨.inr rfl, ?_⟩
+        rw [hq1]; split <;> omega
+      · refine ⟨.inl rfl, ?_⟩
+        rw [hq0]; split <;> omega
+
+/-- the rounded mantissa of a number with more than 53 bits. -/
+theorem shiftRoundEven_mant (n : Nat) (hn : n ≠ 0) (he : 52 < Nat.log2 n) :
+    2 ^ 52 ≤ shiftRoundEven n (Nat.log2 n - 52) ∧ shiftRoundEven n (Nat.log2 n - 52) ≤ 2 ^ 53 := by
+  obtain ⟨h1, h2⟩ := log2_bounds n hn
+  have hs := (shiftRoundEven_spec n (Nat.log2 n - 52) (by omega)).1
+  have hp : 0 < 2 ^ (Nat.log2 n - 52) := Nat.pow_pos (by decide)
+  have e1 : 2 ^ Nat.log2 n = 2 ^ 52 * 2 ^ (Nat.log2 n - 52) := by rw [← Nat.pow_add]; congr 1; omega
+  have e2 : 2 ^ (Nat.log2 n + 1) = 2 ^ 53 * 2 ^ (Nat.log2 n - 52) := by rw [← Nat.pow_add]; congr 1; omega
+  have q1 : 2 ^ 52 ≤ n / 2 ^ (Nat.log2 n - 52) := (Nat.le_div_iff_mul_le hp).mpr (by omega)
+  have q2 : n / 2 ^ (Nat.log2 n - 52) < 2 ^ 53 := (Nat.div_lt_iff_lt_mul hp).mpr (by omega)
+  omega
+
+
+def signNat (neg : Bool) : Nat := if neg then 1 else 0
+
+theorem signNat_lt (neg : Bool) : signNat neg < 2 := by cases neg <;> decide
+theorem signNat_beq (neg : Bool) : (signNat neg == 1) = neg := by cases neg <;> decide
+theorem signNat_mul (neg : Bool) : (if neg then 2 ^ 63 else 0) = signNat neg * 2 ^ 63 := by cases neg <;> rfl
+
+/-- integers with at most 53 significant bits are represented exactly. -/
+theorem f64OfBits_ofNat_small (neg : Bool) (n : Nat) (hn : n ≠ 0) (he : Nat.log2 n ≤ 52) :
+    f64OfBits (f64BitsOfNat neg n) = .fin (if neg then -(n : Rat) else n) := by
+  obtain ⟨b1, b2⟩ := normalise_bounds n 52 hn he
+  unfold f64BitsOfNat log2Nat
+  simp only [hn, if_false, he, if_true, signNat_mul]
+  rw [f64OfBits_mk _ _ _ (signNat_lt neg) (by omega) (by omega), signNat_beq]
+  apply f64Val_int _ _ _ _ (by omega) (by omega)
+  · intro _
+    rw [show 1075 - (1023 + Nat.log2 n) = 52 - Nat.log2 n by omega]; omega
+  · intro h
+    have h52 : Nat.log2 n = 52 := by omega
+    rw [h52] at b1 ⊢
+    omega
+
+/-- larger integers are rounded to 53 bits. -/
+theorem f64OfBits_ofNat_large (neg : Bool) (n : Nat) (hn : n ≠ 0) (he : 52 < Nat.log2 n) (hlt : n < 2 ^ 64) :
+    f64OfBits (f64BitsOfNat neg n) =
+      .fin (if neg then -((shiftRoundEven n (Nat.log2 n - 52) * 2 ^ (Nat.log2 n - 52) : Nat) : Rat)
+        else ((shiftRoundEven n (Nat.log2 n - 52) * 2 ^ (Nat.log2 n - 52) : Nat) : Rat)) := by
+  obtain ⟨b1, b2⟩ := shiftRoundEven_mant n hn he
+  have h64 : Nat.log2 n < 64 := (Nat.log2_lt hn).mpr hlt
+  unfold f64BitsOfNat log2Nat
+  simp only [hn, if_false, show ¬ Nat.log2 n ≤ 52 by omega, signNat_mul]
+  generalize shiftRoundEven n (Nat.log2 n - 52) = m at *
+  split
+  · rename_i hm
+    have := f64OfBits_mk (signNat neg) (1023 + Nat.log2 n + 1) 0 (signNat_lt neg) (by omega) (by omega)
+    rw [Nat.add_zero] at this
+    rw [this, signNat_beq]
+    apply f64Val_int _ _ _ _ (by omega) (by omega)
+    · intro h; omega
+    · intro _
+      rw [hm, show 1023 + Nat.log2 n + 1 - 1075 = (Nat.log2 n - 52) + 1 by omega, Nat.pow_succ]
+      omega
+  · rename_i hm
+    rw [f64OfBits_mk _ _ _ (signNat_lt neg) (by omega) (by omega), signNat_beq]
+    apply f64Val_int _ _ _ _ (by omega) (by omega)
+    · intro h; omega
+    · intro _
+      rw [show 1023 + Nat.log2 n - 1075 = Nat.log2 n - 52 by omega, show 2 ^ 52 + (m - 2 ^ 52) = m by omega]
+
+
+/-! ## binary32 → binary64 -/
+
+/-- the exact value of a binary32 pattern, on its three fields. -/
+def f32Val (sign : Bool) (e m : Nat) : XR :=
+  if e == 255 then (if m == 0 then .inf sign else .nan)
+  else
+    let mag : Rat := if e == 0 then (m : Rat) / ((2 ^ 149 : Nat) : Rat)
+      else if e ≥ 150 then (((2 ^ 23 + m) * 2 ^ (e - 150) : Nat) : Rat)
+      else ((2 ^ 23 + m : Nat) : Rat) / ((2 ^ (150 - e) : Nat) : Rat)
+    .fin (if sign then -mag else mag)
+
+/-- `f64BitsOfF32Bits` on the three fields. -/
+def widenFields (sign e m : Nat) : Nat :=
+  let s64 := sign * 2 ^ 63
+  if e = 255 then
+    if m = 0 then s64 + 2047 * 2 ^ 52 else s64 + 2047 * 2 ^ 52 + 2 ^ 51 + (m % 2 ^ 22) * 2 ^ 29
+  else if e = 0 then
+    if m = 0 then s64
+    else
+      let l := log2Nat m
+      s64 + (1023 - 149 + l) * 2 ^ 52 + (m * 2 ^ (52 - l) - 2 ^ 52)
+  else s64 + (e + 896) * 2 ^ 52 + m * 2 ^ 29
+
+theorem f64BitsOfF32Bits_eq (b : Nat) :
+    f64BitsOfF32Bits b = widenFields (b / 2 ^ 31 % 2) (b / 2 ^ 23 % 2 ^ 8) (b % 2 ^ 23) := rfl
+
+theorem f64Val_zero (sign : Bool) : f64Val sign 0 0 = .fin 0 := by
+  unfold f64Val
+  have z : ((0 : Nat) == 0) = true := rfl
+  have z2 : ((0 : Nat) == 2047) = false := by decide
+  rw [z2, z]
+  simp only [Bool.false_eq_true, if_false, if_true, Nat.cast_zero, zero_div, neg_zero, ite_self]
+
+theorem f32Val_zero (sign : Bool) : f32Val sign 0 0 = .fin 0 := by
+  unfold f32Val
+  have z : ((0 : Nat) == 0) = true := rfl
+  have z2 : ((0 : Nat) == 255) = false := by decide
+  rw [z2, z]
+  simp only [Bool.false_eq_true, if_false, if_true, Nat.cast_zero, zero_div, neg_zero, ite_self]
+
+theorem f64Val_frac (sign : Bool) (E m : Nat) (hE0 : 0 < E) (hE : E < 1075) :
+    f64Val sign E m = .fin (if sign then -(((2 ^ 52 + m : Nat) : Rat) / ((2 ^ (1075 - E) : Nat) : Rat))
+      else ((2 ^ 52 + m : Nat) : Rat) / ((2 ^ (1075 - E) : Nat) : Rat)) := by
+  have e1 : (E == 2047) = false := by simp; omega
+  have e2 : (E == 0) = false := by simp; omega
+  unfold f64Val
+  simp only [e1, e2, Bool.false_eq_true, if_false, ge_iff_le, show ¬ 1075 ≤ E by omega]
+
+theorem rat_div_pow (a b i j : Nat) (h : a * 2 ^ j = b * 2 ^ i) :
+    (a : Rat) / ((2 ^ i : Nat) : Rat) = (b : Rat) / ((2 ^ j : Nat) : Rat) := by
+  have hi : ((2 ^ i : Nat) : Rat) ≠ 0 := by positivity
+  have hj : ((2 ^ j : Nat) : Rat) ≠ 0 := by positivity
+  rw [div_eq_div_iff hi hj]
+  exact_mod_cast h
+
+theorem pow_split (a b c : Nat) (h : a = b + c) : 2 ^ a = 2 ^ b * 2 ^ c := by rw [h, Nat.pow_add]
+
+theorem widen_val (s e m : Nat) (hs : s < 2) (he : e < 256) (hm : m < 2 ^ 23) :
+    f64OfBits (widenFields s e m) = f32Val (s == 1) e m := by
+  unfold widenFields
+  simp only
+  split
+  · rename_i h255
+    subst h255
+    split
+    · rename_i hm0
+      subst hm0
+      have := f64OfBits_mk s 2047 0 hs (by omega) (by omega)
+      rw [Nat.add_zero] at this
+      rw [this]
+      simp [f64Val, f32Val]
+    · rename_i hm0
+      have := f64OfBits_mk s 2047 (2 ^ 51 + (m % 2 ^ 22) * 2 ^ 29) hs (by omega) (by omega)
+      rw [← Nat.add_assoc] at this
+      rw [this]
+      have h2 : (m == 0) = false := by simpa using hm0
+      simp [f64Val, f32Val, h2]
+  · rename_i h255
+    split
+    · rename_i h0
+      subst h0
+      split
+      · rename_i hm0
+        subst hm0
+        have := f64OfBits_mk s 0 0 hs (by omega) (by omega)
+        simp only [Nat.zero_mul, Nat.add_zero] at this
+        rw [this, f64Val_zero, f32Val_zero]
+      · rename_i hm0
+        simp only [log2Nat]
+        have hl : Nat.log2 m < 23 := (Nat.log2_lt hm0).mpr hm
+        obtain ⟨b1, b2⟩ := normalise_bounds m 52 hm0 (by omega)
+        rw [f64OfBits_mk _ _ _ hs (by omega) (by omega), f64Val_frac _ _ _ (by omega) (by omega)]
+        have h2 : (m == 0) = false := by simpa using hm0
+        have key : ((2 ^ 52 + (m * 2 ^ (52 - Nat.log2 m) - 2 ^ 52) : Nat) : Rat) /
+            ((2 ^ (1075 - (1023 - 149 + Nat.log2 m)) : Nat) : Rat) = (m : Rat) / ((2 ^ 149 : Nat) : Rat) := by
+          apply rat_div_pow
+          rw [show 2 ^ 52 + (m * 2 ^ (52 - Nat.log2 m) - 2 ^ 52) = m * 2 ^ (52 - Nat.log2 m) by omega,
+            Nat.mul_assoc, ← Nat.pow_add]
+          congr 2; omega
+        rw [key]
+        have z : ((0 : Nat) == 0) = true := rfl
+        have z2 : ((0 : Nat) == 255) = false := by decide
+        unfold f32Val
+        rw [z2, z]
+        simp only [Bool.false_eq_true, if_false, if_true]
+    · rename_i h0
+      have hmm : m * 2 ^ 29 < 2 ^ 52 := by omega
+      rw [f64OfBits_mk _ _ _ hs (by omega) hmm]
+      have e1 : (e == 255) = false := by simpa using h255
+      have e2 : (e == 0) = false := by simpa using h0
+      by_cases h150 : 150 ≤ e
+      · rw [f64Val_int _ _ _ ((2 ^ 23 + m) * 2 ^ (e - 150)) (by omega) (by omega)]
+        · simp only [f32Val, e1, e2, Bool.false_eq_true, if_false, ge_iff_le, h150, if_true]
+        · intro h
+          rw [Nat.mul_assoc, ← Nat.pow_add, show e - 150 + (1075 - (e + 896)) = 29 by omega]
+          omega
+        · intro h
+          rw [pow_split (e - 150) 29 (e + 896 - 1075) (by omega), ← Nat.mul_assoc]
+          congr 1; omega
+      · rw [f64Val_frac _ _ _ (by omega) (by omega)]
+        have key : ((2 ^ 52 + m * 2 ^ 29 : Nat) : Rat) / ((2 ^ (1075 - (e + 896)) : Nat) : Rat) =
+            ((2 ^ 23 + m : Nat) : Rat) / ((2 ^ (150 - e) : Nat) : Rat) := by
+          apply rat_div_pow
+          rw [pow_split (1075 - (e + 896)) 29 (150 - e) (by omega), ← Nat.mul_assoc]
+          congr 1; omega
+        rw [key]
+        simp only [f32Val, e1, e2, Bool.false_eq_true, if_false, ge_iff_le, h150]
+
+/-- widening is exact. -/
+theorem widen_bits (b : Nat) :
+    f64OfBits (f64BitsOfF32Bits b) = f32Val (b / 2 ^ 31 % 2 == 1) (b / 2 ^ 23 % 2 ^ 8) (b % 2 ^ 23) := by
+  rw [f64BitsOfF32Bits_eq]
+  exact widen_val _ _ _ (Nat.mod_lt _ (by decide)) (Nat.mod_lt _ (by decide)) (Nat.mod_lt _ (by decide))
+
+/-! ## integers -/
+
+theorem f64OfBits_zero : f64OfBits 0 = .fin 0 := by
+  have := f64OfBits_mk 0 0 0 (by omega) (by omega) (by omega)
+  rw [f64Val_zero] at this
+  exact this
+
+theorem f64OfBits_ofNat_pow53 (neg : Bool) :
+    f64OfBits (f64BitsOfNat neg (2 ^ 53)) = .fin (if neg then -((2 ^ 53 : Nat) : Rat) else ((2 ^ 53 : Nat) : Rat)) := by
+  cases neg <;> decide +kernel
+
+theorem f64OfBits_ofNat_exact (neg : Bool) (n : Nat) (hn0 : n ≠ 0) (hn : n ≤ 2 ^ 53) :
+    f64OfBits (f64BitsOfNat neg n) = .fin (if neg then -(n : Rat) else n) := by
+  by_cases h : n = 2 ^ 53
+  · subst h; exact f64OfBits_ofNat_pow53 neg
+  · have : Nat.log2 n < 53 := (Nat.log2_lt hn0).mpr (by omega)
+    exact f64OfBits_ofNat_small neg n hn0 (by omega)
+
+theorem f64OfBits_ofNat_unsigned (n : Nat) (hn : n ≤ 2 ^ 53) : f64OfBits (f64BitsOfNat false n) = .fin (n : Rat) := by
+  by_cases h0 : n = 0
+  · subst h0
+    simp only [f64BitsOfNat, if_true, f64OfBits_zero, Nat.cast_zero]
+  · simpa using f64OfBits_ofNat_exact false n h0 hn
+
+theorem f64OfBits_ofInt (i : Int) (hi : i.natAbs ≤ 2 ^ 53) : f64OfBits (f64BitsOfInt i) = .fin (i : Rat) := by
+  unfold f64BitsOfInt
+  split
+  · rename_i hneg
+    have h : i = -(i.natAbs : Int) := by omega
+    have hc : (i : Rat) = -((i.natAbs : Nat) : Rat) := by
+      exact (congrArg (Int.cast (R := Rat)) h).trans (by rw [Int.cast_neg, Int.cast_natCast])
+    rw [f64OfBits_ofNat_exact true _ (by omega) hi, hc]
+    simp
+  · rename_i hneg
+    have h : i = (i.natAbs : Int) := by omega
+    have hc : (i : Rat) = ((i.natAbs : Nat) : Rat) := by
+      exact (congrArg (Int.cast (R := Rat)) h).trans (by rw [Int.cast_natCast])
+    rw [f64OfBits_ofNat_unsigned _ hi, hc]
+
+theorem signedOf_bounds (k n : Nat) (hk : 0 < k) (hn : n < 2 ^ (8 * k)) :
+    -(2 ^ (8 * k - 1) : Int) ≤ signedOf k n ∧ signedOf k n < (2 ^ (8 * k - 1) : Int) ∧
+      (signedOf k n - (n : Int)) % (2 ^ (8 * k) : Int) = 0 := by
+  have hp : (2 : Nat) ^ (8 * k) = 2 * 2 ^ (8 * k - 1) := by rw [← Nat.pow_succ']; congr 1; omega
+  have hpI : (2 : Int) ^ (8 * k) = ((2 ^ (8 * k) : Nat) : Int) := by push_cast; rfl
+  have hqI : (2 : Int) ^ (8 * k - 1) = ((2 ^ (8 * k - 1) : Nat) : Int) := by push_cast; rfl
+  rw [hpI, hqI]
+  unfold signedOf
+  split
+  · refine ⟨by omega, by omega, ?_⟩
+    rw [Int.sub_self]; rfl
+  · refine ⟨by omega, by omega, ?_⟩
+    apply Int.emod_eq_zero_of_dvd
+    exact ⟨-1, by omega⟩
+
+/-- the nearest-value statement for 64-bit integers beyond 2^53. -/
+theorem f64OfBits_ofNat_nearest (n : Nat) (hn : 2 ^ 53 < n) (hlt : n < 2 ^ 64) :
+    ∃ m s : Nat, 2 ^ 52 ≤ m ∧ m ≤ 2 ^ 53 ∧ s = Nat.log2 n - 52 ∧
+      f64OfBits (f64BitsOfNat false n) = .fin ((m * 2 ^ s : Nat) : Rat) ∧
+      2 * (if m * 2 ^ s ≤ n then n - m * 2 ^ s else m * 2 ^ s - n) ≤ 2 ^ s := by
+  have hn0 : n ≠ 0 := by omega
+  have he : 52 < Nat.log2 n := by
+    have : 53 ≤ Nat.log2 n := (Nat.le_log2 hn0).mpr (by omega)
+    omega
+  obtain ⟨b1, b2⟩ := shiftRoundEven_mant n hn0 he
+  refine ⟨shiftRoundEven n (Nat.log2 n - 52), Nat.log2 n - 52, b1, b2, rfl, ?_, ?_⟩
+  · simpa using f64OfBits_ofNat_large false n hn0 he hlt
+  · exact (shiftRoundEven_spec n _ (by omega)).2
 
 end Sfs
